@@ -63,6 +63,7 @@ FAMILIES['C05'] = [
     fam('release-reacquire', ['ACQ HOLD REL ACQ HOLD REL', 'ACQ HOLD REL', 'HOLD ACQ REL'], w=3),
     fam('release-reacquire', ['ACQ HOLD REL ACQ HOLD REL', 'ACQ HOLD REL', 'HOLD ACQ REL'], witness=True),
     fam('preempt-prio', ['ACQ HOLD REL', 'HOLD PREEMPT HOLD REL', 'TADD ACQ REL'], PRIOSYM=1, w=5),
+    fam('preempt-and-interrupt-same-instant', ['ACQ HOLD HOLD', 'HOLD PREEMPT HOLD REL', 'HOLD INTR0'], PRIOS='{0,5,0}', w=3),      # known finding F-C05-a
     fam('preempt-at-victims-wakeup', ['ACQ HOLD HOLD', 'HOLD PREEMPT HOLD REL', 'HOLD ACQ REL'], PRIOS='{0,5,0}', w=3),      # the preemptor runs first in the instant the victim's hold ends
     fam('preempt-chain', ['PREEMPT HOLD REL', 'HOLD PREEMPT HOLD REL', 'HOLD PREEMPT REL'], PRIOSYM=1, w=6),
     fam('holder-stopped', ['ACQ HOLD', 'ACQ HOLD REL', 'HOLD STOP0'], w=3),
